@@ -164,6 +164,7 @@ PROPS = {
             r3.check_residue_complement,
             r3.check_parity_dispatch,
             r3.check_inventory,
+            r3.check_panic_site_table,
         ],
         "not_decided": "unreachability of internal/debug assertions, primitive arithmetic overflow in debug builds, index bounds, termination, faults other than division by zero",
         "level_text": "Decides the guard discipline for every input in both profiles: every documented failure (zero divisor, underflow, negative shift, radix range, zero "
